@@ -193,6 +193,9 @@ where
 
     let line_limit_reached = |result: &Vec<_>| max_lines > 0 && result.len() + 1 >= max_lines;
 
+    // Set when a line holding nothing but the wrap symbol has just been produced.
+    let mut stalled = false;
+
     let stop = loop {
         if stack.is_empty() {
             break Stop::StackEmpty;
@@ -248,6 +251,21 @@ where
             let mut width_left = graphemes_width
                 .saturating_sub(new_len - line_width)
                 .saturating_sub(wrap_config.left_symbol.width());
+
+            // Not even the first grapheme fits on an otherwise empty line (a double-width
+            // character in a two-column panel): no later line can take it either. Without a
+            // line limit that would go on forever, so stop after one such line.
+            let no_progress = curr_line.len == 0
+                && width_left > 0
+                && graphemes
+                    .first()
+                    .map(|&(_, w)| w > width_left)
+                    .unwrap_or(false);
+            if no_progress && stalled && max_lines == 0 {
+                stack.push((style, text));
+                break Stop::LineLimit;
+            }
+            stalled = no_progress;
 
             // The length does not matter anymore and `curr_line` will be reset
             // at the end, so move the line segments out.
